@@ -1,6 +1,7 @@
 import Jwt.Lemmas.Verify
 import Jwt.Checker
 import Jwt.SetGet
+import Jwt.Builder
 /-!
 # C14 — error reporting contract: failure is always flagged and explained
 
@@ -53,6 +54,37 @@ theorem C14_setter_exist (ls : Bytes → Option Json) (which : Json) (r : SetReq
     cases hs : r.strVal with
     | none => right; simp [hn, hs]
     | some s => left; simp [hn, hs, checkedSet, hex, hr]
+
+/-- **`jwt_builder_generate`** returns NULL exactly when the builder's error flag is set afterwards,
+and then with a non-empty message; a returned token leaves flag and message clear — from every
+prior state and for every callback. -/
+theorem C14_generate (env : Env) (b : Builder) :
+    let r := generate env b
+    (r.2 = none ↔ r.1.error = true) ∧ (r.1.error = true → r.1.msg.isSome = true) ∧
+    (r.2.isSome = true → r.1.error = false ∧ r.1.msg = none) := by
+  unfold generate Builder.writeError
+  cases hg : generateCore env b.cfg with
+  | mk ex rest =>
+    obtain ⟨t, tr⟩ := rest
+    cases ex with
+    | direct e => cases h : b.msg <;> simp [h]
+    | viaJwt e => simp
+    | ok =>
+      simp only
+      -- an `ok` exit always carries a token
+      cases t with
+      | some tok => simp
+      | none =>
+        exfalso
+        unfold generateCore at hg
+        simp only at hg
+        split at hg
+        · simp at hg
+        · split at hg
+          · simp at hg
+          · split at hg
+            · simp at hg
+            · split at hg <;> simp at hg
 
 /-! ### non-vacuity: the three prior states of the statement exist -/
 example : (Checker.new).error = false ∧ (Checker.new).msg = none := by decide
